@@ -128,14 +128,32 @@ def run(chk, repo):
                    f"an early return is reachable although {sorted(set(bad_j))} may be novel: an event with one novel junction is discarded"
                    if bad_j else "the 'nothing novel' early return was not found", key=f"{cq}::novelty-conjunction", fn=f.qual)
         else:
+            def _ri_emission(a_):
+                """statement that adds records to `variants`: variants.append(..) / .extend(..) / variants += [...]"""
+                if isinstance(a_, ast.Expr) and isinstance(a_.value, ast.Call) and call_name(a_.value) in ('append', 'extend') \
+                        and isinstance(a_.value.func, ast.Attribute) and unparse(a_.value.func.value) == 'variants':
+                    return a_.value.args[0] if a_.value.args else None
+                if isinstance(a_, ast.AugAssign) and isinstance(a_.op, ast.Add) and unparse(a_.target) == 'variants':
+                    return a_.value
+                return None
             for n in cfg.nodes:
-                if n.kind == 'stmt' and norm_stmt(n.ast) == 'variants.append(record)':
+                src_ = _ri_emission(n.ast) if n.kind == 'stmt' else None
+                if src_ is not None:
                     fx = G.facts_at(cfg, n.id)
                     typ = None
-                    for a in repo.ancestors(n.ast):
-                        if isinstance(a, ast.For):
-                            typ = unparse(a.iter)
-                            break
+                    # the collection of transcripts the records are made for: comprehension inside the statement, else the enclosing loop
+                    comps = [c_ for c_ in ast.walk(src_) if isinstance(c_, (ast.ListComp, ast.GeneratorExp))]
+                    if comps:
+                        typ = unparse(comps[0].generators[0].iter)
+                    else:
+                        for a in repo.ancestors(n.ast):
+                            if isinstance(a, ast.For):
+                                typ = unparse(a.iter)
+                                break
+                    if typ not in ('spliced_in_ref', 'retained_in_ref'):
+                        chk.undecided('C16.a', f"RI: emission '{unparse(n.ast)[:50]}'", repo.loc(f, n.ast), f"the transcripts this emission is made for were not recognised ({typ})",
+                                      key=f"{cq}::threshold::{typ}", fn=f.qual)
+                        continue
                     x = 'i' if typ == 'spliced_in_ref' else 's'
                     ok = fx.get(f"min_{x}jc <= self.{x}jc_sample_1") is True
                     other = 'retained_in_ref' if x == 'i' else 'spliced_in_ref'
@@ -215,11 +233,24 @@ def run(chk, repo):
     chk.ob('C16.d', 'CLI table lists exactly constant.RMATS_TYPES', cli.where, tbl is not None and set(tbl) == types and len(tbl) == len(types),
            f"CLI {tbl} vs {sorted(types)}", key=cli.qual + '::types', fn=cli.qual)
     pm = repo.func('parser.RMATSParser:parse')
+    # E9: what parse() yields per line when event_type is each of the types (if-chain, lookup table or match alike)
+    from sa.peval import PEval as _PE, repo_consts as _rc, show as _psh
     disp = {}
-    for n in ast.walk(pm.node):
-        if isinstance(n, ast.If) and unparse(n.test).startswith('event_type == '):
-            disp[ast.literal_eval(n.test.comparators[0])] = unparse(n.body[0].value.value.func.value) if isinstance(n.body[0], ast.Expr) else None
-    ok = set(disp) == types and all(v == f"{k}Record" for k, v in disp.items())
+    for ty in sorted(types):
+        try:
+            outs = _PE(resolve_const=_rc(repo, pm.module), split_unknown=True).run(pm.node, {'event_type': ty})
+        except (ValueError, OverflowError) as e:
+            chk.undecided('C16.d', 'parser dispatch', pm.where, f"parse cannot be evaluated for event_type={ty!r}: {e}")
+            disp = None
+            break
+        ys = set()
+        for o in outs:
+            if '<loop not entered>' in o.assumed:
+                continue
+            ys.add(tuple(_psh(ef[1]) for ef in o.effects if ef[0] == 'yield'))
+        disp[ty] = sorted(ys)
+    ok = disp is not None and set(disp) == types and all(len(v) == 1 and len(v[0]) == 1 and re.fullmatch(re.escape(k) + r'Record\.readline\(<item of [^<>]+>\)', v[0][0])
+                                                      for k, v in disp.items())
     chk.uses(cli, pm)
     chk.ob('C16.d', 'parser dispatch covers every type with its own record class', pm.where, ok, f"dispatch {disp}", key=pm.qual + '::dispatch', fn=pm.qual)
     call = G.find_calls(cli.node, 'convert_to_variant_records')
